@@ -177,4 +177,85 @@ def encPrev : Option α → DV α
 /-- a list of `[t, verdict]` -/
 def encB (s : List (Tm × Bool)) : DV α := encSigP (fun b : Bool => DV.bool b) s
 
+/-! ### the loop of the inlined `update` -/
+
+section loops
+variable (call : Call α) (fuel : Nat)
+
+theorem updLoopBody_spec (habs : ∀ x : α, call "abs" [.val x] = .ok (.val (Val.abs x))) (env : Env α) (c : Cmp)
+    (acc : ASig α) (t : Tm) (x : α)
+    (hc : getLoc "self.comparison_op" env = .ok (.cmp c)) (hi : getLoc "update0$i" env = .ok (.smp t (.val x)))
+    (hr : getLoc "update0$sample_result" env = .ok (encSig acc)) (hres : getLoc "abs" env = .error .key) :
+    exec call fuel updLoopBody env =
+      .ok (setLoc "update0$prev" (.val (cmpOfDiff c x)) (setLoc "update0$sample_result"
+        (encSig (acc ++ [(t, cmpOfDiff c x)])) (setLoc "update0$out_val" (.val (cmpOfDiff c x)) env)), .none) := by
+  cases c <;>
+    simp [updLoopBody, updChain, opIs, ux, exec, evalE, hc, hi, hr, resolve_of_key hres, habs, evalBin, isCmp,
+      cmpDV_eq_cmp, Except.map, truthy, evalIdx_smp0, evalIdx_smp1, evalNeg, mkList2, toPayload, cmpOfDiff, encSig,
+      encSmp]
+
+theorem updLoopBody_nan (env : Env α) (c : Cmp)
+    (hc : getLoc "self.comparison_op" env = .ok (.cmp c)) (hi : getLoc "update0$i" env = .ok .nan) :
+    exec call fuel updLoopBody env = .error .type := by
+  cases c <;>
+    simp [updLoopBody, updChain, opIs, ux, exec, evalE, hc, hi, evalBin, isCmp, cmpDV_eq_cmp, Except.map, truthy,
+      evalIdx_nan]
+
+def updVars : List String := ["update0$i", "update0$out_val", "update0$sample_result", "update0$prev"]
+
+theorem updLoop_spec (habs : ∀ x : α, call "abs" [.val x] = .ok (.val (Val.abs x))) (c : Cmp) (d : ASig α) :
+    ∀ (env : Env α) (acc : ASig α),
+      getLoc "self.comparison_op" env = .ok (.cmp c) → getLoc "update0$sample_result" env = .ok (encSig acc) →
+      getLoc "abs" env = .error .key →
+      ∃ env', forLoop (fun p env => setLoc "update0$i" p.1 env) (exec call fuel updLoopBody)
+            ((d.map encSmp).map (fun v => (v, 0))) env = .ok (env', .none) ∧
+        getLoc "update0$sample_result" env' = .ok (encSig (acc ++ d.map (fun p => (p.1, cmpOfDiff c p.2)))) ∧
+        Frame updVars env env' := by
+  induction d with
+  | nil =>
+      intro env acc hc hr hres
+      exact ⟨env, rfl, by simpa using hr, Frame.refl _ _⟩
+  | cons p d ih =>
+      obtain ⟨t, x⟩ := p
+      intro env acc hc hr hres
+      have hb := updLoopBody_spec call fuel habs (setLoc "update0$i" (.smp t (.val x)) env) c acc t x
+        (by simpa using hc) (by simp) (by simpa using hr) (by simpa using hres)
+      generalize henv1 : setLoc "update0$prev" (DV.val (cmpOfDiff c x)) (setLoc "update0$sample_result"
+        (encSig (acc ++ [(t, cmpOfDiff c x)])) (setLoc "update0$out_val" (DV.val (cmpOfDiff c x))
+          (setLoc "update0$i" (DV.smp t (DV.val x)) env))) = env1 at hb
+      have f1 : Frame updVars env env1 := by
+        intro k' hk
+        simp only [updVars, List.mem_cons, List.not_mem_nil, or_false, not_or] at hk
+        rw [← henv1]
+        simp [hk.1, hk.2.1, hk.2.2.1, hk.2.2.2]
+      obtain ⟨env', hx, hr', f2⟩ := ih env1 (acc ++ [(t, cmpOfDiff c x)])
+        (by rw [f1 _ (by simp [updVars])]; exact hc) (by rw [← henv1]; simp)
+        (by rw [f1 _ (by simp [updVars])]; exact hres)
+      refine ⟨env', ?_, ?_, ?_⟩
+      · have e : (((t, x) :: d).map encSmp).map (fun v => (v, (0 : Nat))) =
+            (DV.smp t (.val x), 0) :: (d.map encSmp).map (fun v => (v, 0)) := rfl
+        rw [e, forLoop_cons]
+        simp only [hb, ok_bind]
+        exact hx
+      · simpa using hr'
+      · intro k' hk; rw [f2 _ hk, f1 _ hk]
+
+/-! ### the loop of the inlined `sat` -/
+
+theorem cmpDV_val_int0 (op : BinOp) (x : α) : cmpDV op (.val x) (.int 0) = cmpVal op x Val.zero := by
+  simp [cmpDV, isTimeLike, isValLike, toVal]
+
+theorem satChain_spec (habs : ∀ x : α, call "abs" [.val x] = .ok (.val (Val.abs x))) (env : Env α) (c : Cmp)
+    (t : Tm) (x : α)
+    (hc : getLoc "self.comparison_op" env = .ok (.cmp c)) (hi : getLoc "sat1$in_sample" env = .ok (.smp t (.val x)))
+    (hres : getLoc "abs" env = .error .key) :
+    exec call fuel satChain env =
+      .ok (setLoc "sat1$rval" (.val (cmpOfDiff c x)) (setLoc "sat1$out_val" (.bool (satOn c x)) env), .none) := by
+  cases c <;> cases h1 : Val.lt x Val.zero <;> cases h2 : Val.lt Val.zero x <;>
+    simp [satChain, satBr, opIs, sx, exec, evalE, hc, hi, resolve_of_key hres, habs, evalBin, isCmp,
+      cmpDV_eq_cmp, cmpDV_val_int0, cmpVal, Except.map, truthy, evalIdx_smp1, evalNeg, cmpOfDiff, satOn, satOfDiff,
+      numEq, h1, h2]
+
+end loops
+
 end Rtamt.Py.DnOn.GOnIA
